@@ -1356,7 +1356,7 @@ def _run_mask(case, ctx):
                 key = "PolygonMask2D:collinear-vertices:wrong-mask"
                 what = ("PolygonMask2D differs from exact point-in-polygon for a simple polygon that has three vertices collinear "
                         "to within rounding (vertices %s): the ear-clipping triangulation is invalid" % (col,))
-            if key.endswith("-inside") or key.endswith("-outside"):
+            if key in ("PolygonMask2D:inside-point-reported-outside", "PolygonMask2D:outside-point-reported-inside"):
                 pk = case.get("poly_kind", "")
                 key += "".join(":" + t for t in ("short-edge", "far-offset") if "+" + t in pk)
             ctx.viol(key, what, q=q, got=got, want=want, orientation=orient, poly_kind=case.get("poly_kind"),
